@@ -1036,6 +1036,11 @@ class Interp:
                 return ("Some", recv_list[0] if m != "last" else recv_list[-1])
             if m in ("get", "get_mut") and args and isinstance(args[0], int):
                 return ("Some", recv_list[args[0]]) if 0 <= args[0] < len(recv_list) else ("None",)
+            if m == "zip" and len(args) == 1:
+                other = args[0][1] if isinstance(args[0], tuple) and args[0][:1] == ("list",) else (list(args[0]) if isinstance(args[0], (list, MutList)) else None)
+                if other is None:
+                    raise Unknown("zip with %r" % (args[0],))
+                return ("list", [("tuple", [a, b]) for a, b in zip(list(recv_list), other)])
             if m == "nth" and args and isinstance(args[0], int) and not isinstance(args[0], bool):
                 lst = list(recv_list)
                 if isinstance(recv, PyIter):
